@@ -455,6 +455,12 @@ func (p *poolRun) doTx(o *PoolOp) {
 			return
 		}
 		child := p.m.MakeTx(height, cin[:1], 1, feeFor(cin[0].Coin.Value), -1, ledger.COk)
+		if r.Chance(0.25) {
+			// the orphan names an output its parent does not have (nobody can tell before the parent shows up)
+			child.In[0].Prev.N = uint32(len(parent.Out)) + uint32(r.Intn(2))
+			child.Touch()
+			p.out.Probe("orphan_spending_an_output_its_parent_lacks", 1)
+		}
 		p.submit(child, path) // before its parent
 		p.orphans = append(p.orphans, parent)
 		p.out.Probe("orphan_before_parent", 1)
@@ -764,6 +770,23 @@ func (p *poolRun) doMine(o *PoolOp) {
 			p.out.Probe("block_from_pool_listing", 1)
 		}
 	case "other":
+		if len(p.orphans) > 0 && r.Chance(0.5) {
+			// the withheld parent of an orphan is mined without ever having been relayed to us
+			j := r.Intn(len(p.orphans))
+			t := p.orphans[j]
+			ok := true
+			for _, in := range t.In {
+				if _, has := p.model.UTXO()[in.Prev]; !has || p.poolSpent(in.Prev) {
+					ok = false
+				}
+			}
+			if ok {
+				p.orphans = append(p.orphans[:j], p.orphans[j+1:]...)
+				txs = append(txs, t)
+				p.out.Probe("withheld_parent_of_an_orphan_mined_unseen", 1)
+				break
+			}
+		}
 		// a transaction the pool has not seen; its 1-3 inputs may each be spent by a different pooled transaction
 		ins := p.pickCoins(r, 1+r.Pick(50, 30, 20), false, r.Chance(0.6))
 		if len(ins) > 1 {
